@@ -201,7 +201,12 @@ func c13Config(cfg Cfg, n, t int) bool {
 					apply(&m.Secret, &m.VVec)
 					return rig.Action{}
 				}
-				pub, _, err := c.Inst[ids[(seq)%n]].Stack.Process.OnGenerate(context.Background(), rig.Client1(), account, []byte("pass"), uint32(t), uint32(n))
+				var pub []byte
+				err := rig.Safely(func() error {
+					var err error
+					pub, _, err = c.Inst[ids[(seq)%n]].Stack.Process.OnGenerate(context.Background(), rig.Client1(), account, []byte("pass"), uint32(t), uint32(n))
+					return err
+				})
 				c.Hook, c.Observe = nil, nil
 				holders := dkgHolders(c, account)
 				fmt.Printf("DISTINCT n=%d t=%d %s at %s#%d -> failed=%v holders=%d\n", n, t, f.Name, kind, pos, err != nil, len(holders))
@@ -245,6 +250,12 @@ func c13Config(cfg Cfg, n, t int) bool {
 		}
 	}
 	fmt.Printf("STAT configs_completed 1\n")
+	// Panics raised inside a handler while it served a message (the routing sender answers them the way a server
+	// that recovers would; whether the real daemon survives them is decided by the wire slice).
+	fmt.Printf("STAT handler_panics_in_process %d\n", rig.HandlerPanics.Swap(0))
+	if p, ok := rig.LastHandlerPanic.Load().(string); ok && p != "" {
+		fmt.Printf("DISTINCT in-process handler panic: %s\n", p)
+	}
 	return true
 }
 
@@ -252,7 +263,7 @@ func c13Config(cfg Cfg, n, t int) bool {
 func C13(cfg Cfg) int {
 	run := evid.New("C13", cfg.Tier, cfg.Seed, "fault_enumeration")
 	run.Rule = "for (n,t) in {(2,2),(3,2),(3,3),(4,3),(5,3)} (thorough adds (6,4),(7,4)) on a cluster of real instances: at every position of the prepare / execute / contribute message sequence of a generation, each fault kind (message lost, error reply, duplicate delivery, share replaced by a random one, genuine share for another identifier, one commitment altered, genuine vector one entry too short, genuine vector one entry too long, empty vector, vector with a truncated entry, empty share) is injected on the request and, for contributions, also on the reply; " +
-		"the generation must fail, no participant may hold the account, the receiving instance must reject an invalid contribution, and the process must survive; a duplicate contribution is judged only by consistency of a successful result; distinct = (n, t, fault, message kind, position, outcome) cells"
+		"the generation must fail, no participant may hold the account, the receiving instance must reject an invalid contribution, and the process must survive (a panic inside the goroutine that serves a message is answered as a recovering server would and counted; the wire slice sends the same faulty contributions to a real daemon, which must stay alive); a duplicate contribution is judged only by consistency of a successful result; distinct = (n, t, fault, message kind, position, outcome) cells"
 	run.Assume = []string{"faults are injected by the routing sender that replaces the gRPC transport"}
 	bin := os.Getenv("VH_BIN")
 	if bin == "" {
